@@ -267,6 +267,12 @@ def run(ctx, rule, roots, label, exclude_prefix=()):
                     ok, why = True, why2
                 elif why2:
                     why = why + " / " + why2
+            if not ok and fn.closure_of:
+                ok3, why3 = panic.t1_closure_bounds(prog, zc, s)
+                if ok3:
+                    ok, why = True, why3
+                elif why3:
+                    why = why + " / " + why3
             status = "T1" if ok else None
         elif s.kind == "index":
             inst = s.term.j.get("callee_inst") or ""
@@ -321,6 +327,19 @@ def run(ctx, rule, roots, label, exclude_prefix=()):
                 # the construct moved into a closure of the function the entry names (`x.and_then(|c| c[2]..)`): same
                 # construct, its side condition is re-checked in the closure
                 cands = [k for k in by_base.get(base(s.key).replace("::{closure}", ""), []) if k not in used_t3]
+            if not exact and not cands and "|assert:overflow_neg|overflow_neg" in s.key:
+                # `-(d.as_secs() as i64)` written for `d.as_secs() as i64 * -1`: the same value, overflowing for the same single
+                # operand (i64::MIN); the reviewed entry of the multiplication covers it when the operand is that cast
+                try:
+                    m_ = s.term.j.get("msg", {})
+                    from .model import Operand as _Operand
+                    oo_ = prim.origin_of_operand(s.fn, _Operand(m_["a"])).strip()
+                    is_secs = oo_.k == "cast" and str(oo_.a) == "i64" and oo_.kids and oo_.kids[0].strip().k == "call" and oo_.kids[0].strip().a["name"] == "as_secs"
+                except Exception:
+                    is_secs = False
+                if is_secs:
+                    alt_ = base(s.key).replace("|assert:overflow_neg|overflow_neg", "|assert:overflow|overflow:Mul")
+                    cands = [k for k in by_base.get(alt_, []) if k not in used_t3]
             last = None
             for k in cands:
                 e = t3.get(k)
